@@ -358,7 +358,7 @@ def shard_special(spec, R):
 
 def plan(tier, seed):
     q = tier == "quick"
-    specs = [{"kind": "programs", "group": g, "reps_min": 2, "reps_edge": 6 if q else 250, "reps_random": 10 if q else 700, "reps_deep": 3 if q else 40, "budget_s": 150 if q else 2400} for g in range(len(GROUPS))]
+    specs = [{"kind": "programs", "group": g, "reps_min": 2, "reps_edge": 6 if q else 250, "reps_random": 10 if q else 700, "reps_deep": 3 if q else 40, "budget_s": 150 if q else 600} for g in range(len(GROUPS))]
     specs.append({"kind": "special", "points": 3000 if q else 10000, "mp_points": 60 if q else 400})
     return specs
 
